@@ -97,6 +97,8 @@ fn cli_matrix(quick: bool) -> Vec<CliOpts> {
     }
     muts.push(vec!["all".into()]);
     muts.push(vec!["character".into(), "stringlen".into()]);
+    muts.push(vec!["stringlen".into(), "character".into()]);
+    muts.push(vec!["offbyone".into(), "bitflip".into(), "offbyone".into()]);
     muts.push(vec!["offbyone".into(), "memoindex".into(), "typeconfusion".into()]);
     let rates: Vec<Option<f64>> = vec![None, Some(0.0), Some(0.5), Some(1.0), Some(7.5)];
     let mut v = vec![];
@@ -327,6 +329,9 @@ pub fn c13(tier: &str) -> i32 {
             v.push((vec![("INPUT_MUTATORS", "bitflip, character".into())], CliOpts { mutators: vec!["bitflip".into(), "character".into()], ..b.clone() }));
             v.push((vec![("INPUT_MUTATORS", "all".into()), ("INPUT_MUTATION_RATE", "1.0".into())], CliOpts { mutators: vec!["all".into()], rate: Some(1.0), ..b.clone() }));
             v.push((vec![("INPUT_MUTATORS", "all".into()), ("INPUT_UNSAFE_MUTATIONS", "true".into()), ("INPUT_MUTATION_RATE", "0.5".into())], CliOpts { mutators: vec!["all".into()], unsafe_mut: true, rate: Some(0.5), ..b.clone() }));
+            v.push((vec![("INPUT_MUTATORS", "offbyone, bitflip".into()), ("INPUT_MUTATION_RATE", "1.0".into())], CliOpts { mutators: vec!["offbyone".into(), "bitflip".into()], rate: Some(1.0), ..b.clone() }));
+            v.push((vec![("INPUT_MUTATORS", "stringlen,character,boundary".into()), ("INPUT_MUTATION_RATE", "0.5".into())], CliOpts { mutators: vec!["stringlen".into(), "character".into(), "boundary".into()], rate: Some(0.5), ..b.clone() }));
+            v.push((vec![("INPUT_MUTATORS", "offbyone,bitflip,offbyone".into()), ("INPUT_MUTATION_RATE", "0.5".into())], CliOpts { mutators: vec!["offbyone".into(), "bitflip".into(), "offbyone".into()], rate: Some(0.5), ..b.clone() }));
             v.push((vec![("INPUT_MUTATORS", "memoindex,offbyone".into()), ("INPUT_UNSAFE_MUTATIONS", "yes".into())], CliOpts { mutators: vec!["memoindex".into(), "offbyone".into()], unsafe_mut: true, ..b.clone() }));
             v.push((vec![("INPUT_UNSAFE_MUTATIONS", "false".into()), ("INPUT_MUTATORS", "typeconfusion".into())], CliOpts { mutators: vec!["typeconfusion".into()], ..b.clone() }));
             v.push((vec![("INPUT_ALLOW_EXT", "true".into()), ("INPUT_PROTOCOL", "2".into())], CliOpts { ext: true, protocol: Some(2), ..b.clone() }));
